@@ -587,25 +587,6 @@ package scipipe
 //@ ghost func afterLastSlash(x string) string
 //@ ghost func beforeLastSlash(x string) string
 
-// Assumed facts about Go's regexp for the four pattern literals of applyPathModifiers (validated by differential tests).
-//@ axiom re.subst.groups: forall m string :: isSubstMod(m) ==> reGroup("s\\/([^\\/]+)\\/([^\\/]*)\\/", m, 1) == substA(m) && reGroup("s\\/([^\\/]+)\\/([^\\/]*)\\/", m, 2) == substB(m)
-//@ axiom re.trim.group: forall m string :: isTrimMod(m) ==> reGroup("%(.*)", m, 1) == substr(m, 1, len(m) - 1)
-//@ axiom re.basename: forall x string :: !contains(x, "\n") ==> reReplaceAll(".*\\/", x, "") == afterLastSlash(x)
-//@ axiom re.dirname: forall x string :: !contains(x, "\n") ==> reReplaceAll("\\/[^\\/]*$", x, "") == beforeLastSlash(x)
-// Meaning of the two spec functions (documented semantics of basename / dirname).
-//@ axiom afterLastSlash.split: forall d string, f string :: !contains(f, "/") ==> afterLastSlash(d + "/" + f) == f
-//@ axiom afterLastSlash.none: forall x string :: !contains(x, "/") ==> afterLastSlash(x) == x
-//@ axiom beforeLastSlash.split: forall d string, f string :: !contains(f, "/") ==> beforeLastSlash(d + "/" + f) == d
-//@ axiom beforeLastSlash.none: forall x string :: !contains(x, "/") ==> beforeLastSlash(x) == x
-//@ axiom nonewline.stable.after: forall x string :: !contains(x, "\n") ==> !contains(afterLastSlash(x), "\n")
-//@ axiom nonewline.stable.before: forall x string :: !contains(x, "\n") ==> !contains(beforeLastSlash(x), "\n")
-
-//@ extern (*regexp.Regexp).MatchString(re, s) (res)
-//@   deterministic by-contract pure library function
-//@ extern (*regexp.Regexp).FindStringSubmatch(re, s) (res)
-//@   deterministic by-contract pure library function
-//@   ensures groups: forall i int :: res[i] == reGroup(regexLit(re), s, i)
-
 // The documented modifiers (docs/writing_workflows.md): basename, dirname, %SUFFIX, s/SEARCH/REPLACE/
 //@ ghost func isSubstMod(m string) bool
 //@ ghost func isTrimMod(m string) bool
@@ -625,6 +606,25 @@ package scipipe
 //@ lemma kinds.trim.prefix[C15]: forall m string :: isTrimMod(m) ==> hasPrefix(m, "%")
 //@ lemma kinds.trim.nonewline[C15]: forall m string :: isTrimMod(m) ==> !contains(m, "\n")
 //@ lemma kinds.words[C15]: !matches("basename", "s\\/([^\\/]+)\\/([^\\/]*)\\/") && !matches("basename", "%(.*)") && !matches("dirname", "s\\/([^\\/]+)\\/([^\\/]*)\\/") && !matches("dirname", "%(.*)")
+// Assumed facts about Go's regexp for the four pattern literals of applyPathModifiers (validated by differential tests).
+//@ axiom re.subst.groups: forall m string :: isSubstMod(m) ==> reGroup("s\\/([^\\/]+)\\/([^\\/]*)\\/", m, 1) == substA(m) && reGroup("s\\/([^\\/]+)\\/([^\\/]*)\\/", m, 2) == substB(m)
+//@ axiom re.trim.group: forall m string :: isTrimMod(m) ==> reGroup("%(.*)", m, 1) == substr(m, 1, len(m) - 1)
+//@ axiom re.basename: forall x string :: !contains(x, "\n") ==> reReplaceAll(".*\\/", x, "") == afterLastSlash(x)
+//@ axiom re.dirname: forall x string :: !contains(x, "\n") ==> reReplaceAll("\\/[^\\/]*$", x, "") == beforeLastSlash(x)
+// Meaning of the two spec functions (documented semantics of basename / dirname).
+//@ axiom afterLastSlash.split: forall d string, f string :: !contains(f, "/") ==> afterLastSlash(d + "/" + f) == f
+//@ axiom afterLastSlash.none: forall x string :: !contains(x, "/") ==> afterLastSlash(x) == x
+//@ axiom beforeLastSlash.split: forall d string, f string :: !contains(f, "/") ==> beforeLastSlash(d + "/" + f) == d
+//@ axiom beforeLastSlash.none: forall x string :: !contains(x, "/") ==> beforeLastSlash(x) == x
+//@ axiom nonewline.stable.after: forall x string :: !contains(x, "\n") ==> !contains(afterLastSlash(x), "\n")
+//@ axiom nonewline.stable.before: forall x string :: !contains(x, "\n") ==> !contains(beforeLastSlash(x), "\n")
+
+//@ extern (*regexp.Regexp).MatchString(re, s) (res)
+//@   deterministic by-contract pure library function
+//@ extern (*regexp.Regexp).FindStringSubmatch(re, s) (res)
+//@   deterministic by-contract pure library function
+//@   ensures groups: forall i int :: res[i] == reGroup(regexLit(re), s, i)
+
 //@ axiom subst.decomp: forall m string :: isSubstMod(m) ==> m == "s/" + substA(m) + "/" + substB(m) + "/" && len(substA(m)) > 0 && !contains(substA(m), "/") && !contains(substB(m), "/") && !contains(substA(m), "\n") && !contains(substB(m), "\n")
 //@ define docMod(m string) bool = m == "basename" || m == "dirname" || isTrimMod(m) || isSubstMod(m)
 //@ define trimSuffix(x string, s string) string = ite(len(x) > len(s) && hasSuffix(x, s), substr(x, 0, len(x) - len(s)), x)
